@@ -52,6 +52,10 @@ impl<'a> CStrWriter<'a> {
         Self { dst, nw }
     }
 
+    #[cfg_attr(kani, kani::requires(verif_kani::write_pre(self, s)))]
+    #[cfg_attr(kani, kani::modifies(self.nw))]
+    #[cfg_attr(kani, kani::modifies(self.dst))]
+    #[cfg_attr(kani, kani::ensures(|_| verif_kani::write_post(old(verif_kani::snap(self)), self, s)))]
     fn write(&mut self, s: &str) {
         // TODO(eric): what if `s` contains a null byte?
         let src = s.as_bytes();
@@ -102,6 +106,10 @@ impl Write for CStrWriter<'_> {
         Ok(())
     }
 }
+
+#[cfg(kani)]
+#[path = "/verif/kani/aranya-capi-core/cstr.rs"]
+mod verif_kani;
 
 #[cfg(test)]
 mod tests {
